@@ -37,8 +37,12 @@ TraceParse ==
 C == Trace[caseLine].cfg
 Tree == SeqToSet(Trace[caseLine].tree)
 
+\* archlinux package names: alphanumerics and . _ + - only, not starting with a hyphen or a dot (arch.nameIsValid)
+ArchNameOK(n) == /\ n # "" /\ Ch(n, 1) \notin {"-", "."}
+                 /\ \A i \in 1..Len(n) : IsAlnum(Ch(n, i)) \/ Ch(n, i) \in {".", "_", "+", "-"}
 ExpectBuild(f, c, st) ==
   /\ st = "ok"
+  /\ (f = "archlinux" => ArchNameOK(c.name))
   /\ ~(f \in {"apk", "archlinux"} /\ EffPlatform(c) # "linux")
   /\ (f = "rpm" /\ c.epoch # "" => AllDigits(c.epoch))
 
@@ -92,7 +96,7 @@ TraceEndPkg ==
                 \cup (IF built /\ expect /\ ("C01.payload_exact" \in pay[1] \/ "C04.parents_first" \in other)
                       THEN {"C05.package_follows_the_plan"} ELSE {})
          \* a package that was built although the list should have been rejected is still held to the container rules
-         strayStruct == IF built /\ ~expect THEN StructClauses(f, c, ScriptsConfigured(f, c), evs) ELSE {}
+         strayStruct == IF built /\ ~expect THEN StructClauses(f, c, ScriptsConfigured(f, c), evs) \cup FileNameClauses(f, c, p.fname, evs) ELSE {}
          all == resultCl \cup pay[1] \cup pay[2] \cup other \cup c13 \cup c13pk \cup c05 \cup strayStruct
      IN /\ viol' = AddViol({ <<cid, pkgLine, n>> : n \in { x \in all : ~IsDoc(x) } })
         /\ drift' = AddDrift({ <<cid, pkgLine, n>> : n \in { x \in all : IsDoc(x) } })
